@@ -45,10 +45,11 @@ class Transition(object):
 
     # -- queries -------------------------------------------------------------
     def calls(self, name=None):
-        return [e for e in self.events if e.kind == 'call' and (name is None or e.name == name)]
+        # a call that was replaced by its body (a helper split off later) is only a marker: its effects follow
+        return [e for e in self.events if e.kind == 'call' and not e.inlined and (name is None or e.name == name)]
 
     def call_names(self):
-        return [e.name for e in self.events if e.kind == 'call']
+        return [e.name for e in self.events if e.kind == 'call' and not e.inlined]
 
     def errors(self):
         out = []
@@ -129,28 +130,50 @@ class ParserModel(object):
         fn = ctx.need('cfg_parse_internal')
         self.fn = fn
         calls = list(fn.calls('cfg_yylex'))
-        if len(calls) != 1:
-            raise Broken('cfg_parse_internal: expected one cfg_yylex() call site, found %d' % len(calls))
+        if not calls:
+            raise Broken('cfg_parse_internal: no cfg_yylex() call site')
+        self.lexcalls = calls
         self.lexcall = calls[0]
         loops = _cfg.natural_loops(fn)
-        hdrs = [h for h, body in loops.items() if self.lexcall.block.label in body]
+        # the token loop: the outermost loop that fetches a token in its body ("while (tok = yylex())" has the only
+        # call in the body; "for (tok = yylex(); tok; tok = yylex())" has a second one in front of the loop)
+        hdrs = [h for h, body in loops.items() if any(cl.block.label in body for cl in calls)]
+        hdrs = [h for h in hdrs if not any(h != h2 and h in loops[h2] for h2 in hdrs)]
         if len(hdrs) != 1:
             raise Broken('cfg_parse_internal: main loop not identified (%d candidate loops)' % len(hdrs))
         self.header = hdrs[0]
         self.loop_body = loops[self.header]
-        # the state variable: the loop-carried value the biggest switch of the loop dispatches on
-        self.state_phi = None
         self.phis = {}
         for ph in fn.blocks[self.header].phis():
             nm = fn.var_names.get(ph.res)
             self.phis[nm or ph.res] = ph
+        # a loop-carried token variable (the for-loop form): every value flowing into it is a cfg_yylex() result
+        self.tok_phi = None
+        lexres = set(cl.res for cl in calls if cl.res)
+        for ph in fn.blocks[self.header].phis():
+            if ph.ops and all(x.kind == 'reg' and x.name in lexres for x in ph.ops):
+                self.tok_phi = ph
+        # scalar locals kept in a stack slot (address taken): name by register
+        self.slot_vars = {}
+        for ins in fn.blocks[fn.order[0]].instrs:
+            if ins.op == 'alloca' and ins.srcty.strip() in ('i8*', 'i32', 'i64', '%struct.cfg_opt_t*', '%union.cfg_value_t*'):
+                nm = fn.var_names.get(ins.res)
+                if nm and nm not in self.phis:
+                    self.slot_vars[ins.res] = nm
+        # the state variable: the loop-carried value the biggest switch of the loop dispatches on - a phi at the
+        # loop head, or (when helpers update it through a pointer) a local kept in a stack slot
+        self.state_phi = None
+        self.state_slot = None
         best = None
         for ins in fn.instrs():
             if ins.op == 'switch' and ins.block.label in self.loop_body and ins.ops[0].kind == 'reg':
-                if any(ph.res == ins.ops[0].name for ph in fn.blocks[self.header].phis()):
+                carried = any(ph.res == ins.ops[0].name for ph in fn.blocks[self.header].phis())
+                d = fn.defs.get(ins.ops[0].name)
+                slot = d is not None and d.op == 'load' and d.ops[0].kind == 'reg' and d.ops[0].name in self.slot_vars
+                if carried or slot:
                     if best is None or len(ins.cases) > len(best.cases):
                         best = ins
-        if best is None or len(best.cases) < 8:
+        if best is None or len(best.cases) < 5:
             raise Broken('cfg_parse_internal: no switch over a loop-carried state variable')
         self.state_switch = best
         for nm, ph in list(self.phis.items()):
@@ -161,15 +184,13 @@ class ParserModel(object):
                     del self.phis[nm]
                     self.phis['state'] = ph
                     fn.var_names[ph.res] = 'state'
+        if self.state_phi is None:
+            d = fn.defs.get(best.ops[0].name)
+            self.state_slot = d.ops[0].name
+            self.slot_vars[self.state_slot] = 'state'
+            fn.var_names[self.state_slot] = 'state'
         self.states = sorted(v for v, _ in self.state_switch.cases)
         self.mod_sets = ctx.mod_sets
-        # scalar locals kept in a stack slot (address taken): name by register
-        self.slot_vars = {}
-        for ins in fn.blocks[fn.order[0]].instrs:
-            if ins.op == 'alloca' and ins.srcty.strip() in ('i8*', 'i32', 'i64', '%struct.cfg_opt_t*', '%union.cfg_value_t*'):
-                nm = fn.var_names.get(ins.res)
-                if nm and nm not in self.phis:
-                    self.slot_vars[ins.res] = nm
         self.ex = sym.Explorer(ctx.modules, inline=callback_wrappers(ctx), max_visits=2, max_paths=20000, mod_sets=self.mod_sets)
         self._table = {}
 
@@ -217,7 +238,34 @@ class ParserModel(object):
                 walk(d.ops[2])
             else:
                 unknown.append((fn.name, d.line))
-        walk(sym_value(self.state_phi.res))
+        if self.state_phi is not None:
+            walk(sym_value(self.state_phi.res))
+            return out, unknown
+        # state kept in a stack slot: every value stored into it, here or (through the pointer) in a helper
+        def stores_into(g, reg, depth=0):
+            for ins in g.instrs():
+                if ins.op == 'store' and ins.ops[1].kind == 'reg' and ins.ops[1].name == reg:
+                    yield g, ins.ops[0]
+                elif ins.op == 'call' and not ins.is_dbg() and depth < 4:
+                    h = self.ctx.func(ins.callee_name() or '')
+                    if h is None or h.name not in self.ctx.unknown_funcs:
+                        continue
+                    for k, a in enumerate(ins.args):
+                        if a.kind == 'reg' and a.name == reg and k < len(h.params):
+                            for x in stores_into(h, h.params[k].name, depth + 1):
+                                yield x
+        for g, v in stores_into(fn, self.state_slot):
+            if g is fn:
+                walk(v)
+            elif v.kind == 'int':
+                out.add(v.ival)
+            else:
+                d = g.defs.get(v.name) if v.kind == 'reg' else None
+                if d is not None and d.op in ('phi', 'select') and all(x.kind == 'int' for x in (d.ops if d.op == 'phi' else d.ops[1:])):
+                    for x in (d.ops if d.op == 'phi' else d.ops[1:]):
+                        out.add(x.ival)
+                else:
+                    unknown.append((g.name, getattr(d, 'line', None)))
         return out, unknown
 
     def transitions(self, state, tok, seeds=None):
@@ -237,12 +285,17 @@ class ParserModel(object):
             env[ph.res] = ('p', nm)
             if seeds and nm in seeds:
                 env[ph.res] = ('c', seeds[nm])
-        env[self.state_phi.res] = ('c', state)
+        if self.state_phi is not None:
+            env[self.state_phi.res] = ('c', state)
+        if self.tok_phi is not None:
+            env[self.tok_phi.res] = ('c', tok)
         # locals whose address is taken (handed to a helper by reference) live in memory instead of in a
         # loop-carried SSA value: seed the slot with the same symbol, read the final content back below
         mem = {}
         for reg, nm in self.slot_vars.items():
             mem[('alloca', reg)] = ('c', seeds[nm]) if seeds and nm in seeds else ('p', nm)
+        if self.state_slot is not None:
+            mem[('alloca', self.state_slot)] = ('c', state)
         paths = self.ex.explore(fn, start=self.header, env=env, stop=[self.header],
                                 call_results={'cfg_yylex': [('c', tok)]},
                                 neq={('p', 'cfg'): {0}}, mem=mem)
@@ -250,10 +303,11 @@ class ParserModel(object):
         for p in paths:
             if p.end == 'cut':
                 continue
+            if p.end == 'stop':
+                for reg, nm in self.slot_vars.items():
+                    if nm not in p.next:
+                        p.next[nm] = p.mem.get(('alloca', reg), ('p', nm))
             tr = Transition(state, tok, p, self)
-            for reg, nm in self.slot_vars.items():
-                if nm not in tr.next:
-                    tr.next[nm] = p.mem.get(('alloca', reg), ('p', nm))
             out.append(tr)
         if not out:
             raise sym.AnalysisIncomplete('no residual path for state %d token %s' % (state, TOKNAME.get(tok, tok)))
